@@ -111,6 +111,10 @@ func main() {
 		die(2, "usage: vcheck <Cxx> [--tier quick|thorough] [--seed n] [--replay file]")
 	}
 	id := args[0]
+	if id == "prebuild" {
+		prebuild()
+		return
+	}
 	tier := os.Getenv("VERIF_TIER")
 	seedS := os.Getenv("VERIF_SEED")
 	replay := ""
@@ -631,4 +635,61 @@ func raceSig(blk string) string {
 	}
 	sort.Strings(fr)
 	return strings.Join(fr, "~")
+}
+
+// prebuild compiles the quick-tier test binaries of every check (warms the Go
+// build cache after a fresh restore). Failures are reported but not fatal:
+// each check rebuilds from /repo's working tree anyway.
+func prebuild() {
+	cfgs, _ := filepath.Glob(filepath.Join(root, "checks", "*", "check.json"))
+	bin := filepath.Join(root, ".work", "bin")
+	os.MkdirAll(bin, 0o755)
+	seen := map[string]bool{}
+	for _, c := range cfgs {
+		b, err := os.ReadFile(c)
+		if err != nil {
+			continue
+		}
+		var d struct {
+			ID string `json:"id"`
+			checkDef
+		}
+		if json.Unmarshal(b, &d) != nil {
+			continue
+		}
+		for _, st := range d.Stages {
+			quick := len(st.Tiers) == 0
+			for _, t := range st.Tiers {
+				if t == "quick" {
+					quick = true
+				}
+			}
+			key := fmt.Sprintf("%s|%v|%v|%v", st.Pkg, st.Race, st.Asan, st.NoCgo)
+			if !quick || seen[key] {
+				continue
+			}
+			seen[key] = true
+			name := strings.ReplaceAll(strings.TrimPrefix(st.Pkg, "./"), "/", "_")
+			args := []string{"test", "-c", "-tags", "verif", "-vet=off"}
+			if st.Race {
+				args = append(args, "-race")
+				name += "-race"
+			}
+			if st.Asan {
+				args = append(args, "-asan")
+				name += "-asan"
+			}
+			args = append(args, "-o", filepath.Join(bin, name+".test"), st.Pkg)
+			t0 := time.Now()
+			cmd := exec.Command("go", args...)
+			cmd.Dir = root
+			cmd.Env = goEnv(nil, st.NoCgo)
+			out, err := cmd.CombinedOutput()
+			if err != nil {
+				fmt.Printf("prebuild %s %s: FAILED %v\n%s\n", d.ID, st.Name, err, firstLines(string(out), 5))
+			} else {
+				fmt.Printf("prebuild %s %s: ok (%.0fs)\n", d.ID, st.Name, time.Since(t0).Seconds())
+			}
+		}
+	}
 }
